@@ -655,6 +655,7 @@ def _lift(v, like=None):
 
 
 _BITS_MEMO = {}
+_eng.RESET_HOOKS.append(_BITS_MEMO.clear)
 
 
 def _contains_bits(t):
@@ -920,8 +921,10 @@ class ndarray(_OpsMixin):
             return ndarray(self._store, self._pos, shape, self.dtype, True)
         return ndarray(_Store(self._cells()), list(range(self.size)), shape, self.dtype)
 
-    def astype(self, dt):
+    def astype(self, dt, copy=True, **kw):
         dt = dtype(dt)
+        if not copy and dt is self.dtype:
+            return self                      # numpy returns the array itself when no conversion is needed and copy=False
         return ndarray(_Store([_cast(c, self.dtype, dt) for c in self._cells()]), list(range(self.size)), self.shape, dt)
 
     def view(self, dt=None):
@@ -1646,7 +1649,13 @@ def _mod(a, b, dt):
     return a % z3.BitVecVal(b, w)
 
 
-_FPS = {2: z3.Float16(), 4: z3.Float32(), 8: z3.Float64()}
+class _FpSorts:
+    """float sorts of the *current* z3 context (the executor uses a fresh context per path)"""
+    def __getitem__(self, itemsize):
+        return {2: z3.Float16, 4: z3.Float32, 8: z3.Float64}[itemsize]()
+
+
+_FPS = _FpSorts()
 
 
 def _to_fp(v, dt):
